@@ -8,6 +8,7 @@ import (
 	"go/token"
 	"go/types"
 	"math/big"
+	"sort"
 	"strings"
 
 	"golang.org/x/tools/go/ssa"
@@ -18,7 +19,7 @@ import (
 // symEval interprets the field-element calls of a straight-line stretch of fn (blocks in dominance
 // order until the first branch that is not a constant-count helper) over an abstract domain T.
 type symOps[T any] struct {
-	leaf   func(addr ssa.Value) (T, bool)              // value of an address not yet written
+	leaf   func(addr ssa.Value) (T, bool)                          // value of an address not yet written
 	apply  func(method string, args []T, call *ssa.Call) (T, bool) // receiver := method(args)
 	helper func(call *ssa.Call, get func(ssa.Value) (T, bool), set func(ssa.Value, T)) bool
 	value  func(v ssa.Value) (T, bool) // abstract value of an SSA value stored into a cell (e.g. the result of fp.One())
@@ -288,154 +289,210 @@ func RuleQ1Q2(c *Ctx) {
 		return
 	}
 	c.Saw(core.FnName(fn))
-	abs := callsTo(fn, "/ipa", "", "absInt")
-	inv := callsTo(fn, "/ipa", "PrecomputedWeights", "getInvertedElement")
-	ratio := callsTo(fn, "/ipa", "PrecomputedWeights", "getRatioOfWeights")
-	subs := callsTo(fn, "bandersnatch/fr", "Element", "Sub")
-	muls := callsTo(fn, "bandersnatch/fr", "Element", "Mul")
-	if len(abs) != 1 || len(inv) != 1 || len(ratio) != 1 || len(subs) != 2 || len(muls) != 2 {
-		c.Und("Q1", "DivideOnDomain:shape", fn.Pos(), fmt.Sprintf("unexpected shape: %d absInt, %d getInvertedElement, %d getRatioOfWeights, %d Sub, %d Mul", len(abs), len(inv), len(ratio), len(subs), len(muls)))
+	allAbs := callsTo(fn, "/ipa", "", "absInt")
+	allInv := callsTo(fn, "/ipa", "PrecomputedWeights", "getInvertedElement")
+	allRatio := callsTo(fn, "/ipa", "PrecomputedWeights", "getRatioOfWeights")
+	allSubs := callsTo(fn, "bandersnatch/fr", "Element", "Sub")
+	allMuls := callsTo(fn, "bandersnatch/fr", "Element", "Mul")
+	isIdx := func(v ssa.Value) bool { return core.PathOf(core.StripConv(v)) == "p:index" }
+	// one instance per loop that computes quotient entries (one loop with an `i != index` guard, or the two loops
+	// below and above index)
+	cls := countedLoops(fn)
+	var insts []*countedLoop
+	for _, cl := range cls {
+		for _, a := range allAbs {
+			if loopOf(cls, a.Block()) == cl {
+				insts = append(insts, cl)
+				break
+			}
+		}
+	}
+	if len(insts) == 0 || len(insts) > 2 {
+		c.Und("Q1", "DivideOnDomain:shape", fn.Pos(), fmt.Sprintf("unexpected shape: %d loops computing quotient entries", len(insts)))
 		return
 	}
-	isIdx := func(v ssa.Value) bool { return core.PathOf(core.StripConv(v)) == "p:index" }
-	var loopVar ssa.Value
-	for _, cl := range countedLoops(fn) {
-		loopVar = cl.phi
-	}
-	// den := i - index
-	den, isSub := abs[0].Call.Args[0].(*ssa.BinOp)
-	okDen := isSub && den.Op == token.SUB && den.X == loopVar && isIdx(den.Y)
-	// numerator: quotient[i] = f[i] - y, y = f[index]
-	var num *ssa.Call
-	for _, s := range subs {
-		if strings.HasPrefix(core.PathOf(s.Call.Args[1]), "p:f[") {
-			num = s
-		}
-	}
-	okNum := false
-	if num != nil {
-		a, _ := num.Call.Args[1].(*ssa.IndexAddr)
-		yCell, _ := num.Call.Args[2].(*ssa.Alloc)
-		d, _ := num.Call.Args[0].(*ssa.IndexAddr)
-		if a != nil && yCell != nil && d != nil && a.Index == loopVar && d.Index == loopVar {
-			src := core.LocalCopySource(yCell)
-			if ia, isIA := src.(*ssa.IndexAddr); isIA && core.PathOf(ia.X) == "p:f" && isIdx(ia.Index) {
-				okNum = true
+	inLoop := func(cl *countedLoop, calls []*ssa.Call) []*ssa.Call {
+		var out []*ssa.Call
+		for _, x := range calls {
+			if loopOf(cls, x.Block()) == cl {
+				out = append(out, x)
 			}
 		}
+		return out
 	}
-	// abs/sign forwarded
-	okFwd := false
-	if ex0, ex1 := inv[0].Call.Args[1], inv[0].Call.Args[2]; true {
-		e0, ok0 := ex0.(*ssa.Extract)
-		e1, ok1 := ex1.(*ssa.Extract)
-		okFwd = ok0 && ok1 && e0.Tuple == ssa.Value(abs[0]) && e1.Tuple == ssa.Value(abs[0]) && e0.Index == 0 && e1.Index == 1
-	}
-	// quotient[i] *= denInv
-	okScale := false
-	for _, m := range muls {
-		if d, isD := m.Call.Args[0].(*ssa.IndexAddr); isD && d.Index == loopVar {
-			if cell, isCell := m.Call.Args[2].(*ssa.Alloc); isCell {
-				for _, st := range storesInto(cell) {
-					if st.Val == ssa.Value(inv[0]) {
-						okScale = num != nil && core.Precedes(fn, num, m)
+	var ranges []string
+	for k, cl := range insts {
+		sfx := ""
+		if len(insts) > 1 {
+			sfx = fmt.Sprintf("#%d", k+1)
+		}
+		abs, inv, ratio, subs, muls := inLoop(cl, allAbs), inLoop(cl, allInv), inLoop(cl, allRatio), inLoop(cl, allSubs), inLoop(cl, allMuls)
+		if len(abs) != 1 || len(inv) != 1 || len(ratio) != 1 || len(subs) != 2 || len(muls) != 2 {
+			c.Und("Q1", "DivideOnDomain:shape"+sfx, fn.Pos(), fmt.Sprintf("unexpected shape: %d absInt, %d getInvertedElement, %d getRatioOfWeights, %d Sub, %d Mul", len(abs), len(inv), len(ratio), len(subs), len(muls)))
+			return
+		}
+		loopVar := cl.phi
+		// the range of i, for the coverage clause
+		{
+			z, isZ := core.ConstInt(cl.init)
+			bk, isBK := core.ConstInt(cl.bound)
+			size := c.constOf("common", "VectorLength")
+			switch {
+			case cl.step == 1 && cl.op == token.LSS && isZ && z == 0 && isBK && bk == size:
+				ranges = append(ranges, "all")
+			case cl.step == 1 && cl.op == token.LSS && isZ && z == 0 && isIdx(cl.bound):
+				ranges = append(ranges, "below")
+			case cl.step == 1 && cl.op == token.LSS && isBK && bk == size:
+				if add, isAdd := core.StripConv(cl.init).(*ssa.BinOp); isAdd && add.Op == token.ADD && isIdx(add.X) {
+					if one, isOne := core.ConstInt(add.Y); isOne && one == 1 {
+						ranges = append(ranges, "above")
+						break
 					}
+				}
+				ranges = append(ranges, "?")
+			default:
+				ranges = append(ranges, "?")
+			}
+		}
+		// den := i - index
+		den, isSub := abs[0].Call.Args[0].(*ssa.BinOp)
+		okDen := isSub && den.Op == token.SUB && den.X == loopVar && isIdx(den.Y)
+		// numerator: quotient[i] = f[i] - y, y = f[index]
+		var num *ssa.Call
+		for _, s := range subs {
+			if strings.HasPrefix(core.PathOf(s.Call.Args[1]), "p:f[") {
+				num = s
+			}
+		}
+		okNum := false
+		if num != nil {
+			a, _ := num.Call.Args[1].(*ssa.IndexAddr)
+			yCell, _ := num.Call.Args[2].(*ssa.Alloc)
+			d, _ := num.Call.Args[0].(*ssa.IndexAddr)
+			if a != nil && yCell != nil && d != nil && a.Index == loopVar && d.Index == loopVar {
+				src := core.LocalCopySource(yCell)
+				if ia, isIA := src.(*ssa.IndexAddr); isIA && core.PathOf(ia.X) == "p:f" && isIdx(ia.Index) {
+					okNum = true
 				}
 			}
 		}
-	}
-	c.Check(okDen && okNum && okFwd && okScale, "Q1", "DivideOnDomain:orientation", fn.Pos(),
-		fmt.Sprintf("orientation of numerator and denominator disagree or are not forwarded (den=i-index: %v, num=f[i]-f[index]: %v, |den|,sign forwarded: %v, scaled by that inverse: %v)", okDen, okNum, okFwd, okScale),
-		"den = i - index", "num = f[i] - f[index]", "q[i] = num * getInvertedElement(|den|, den<0)")
-	// Q2
-	var self *ssa.Call
-	for _, s := range subs {
-		if s != num {
-			self = s
+		// abs/sign forwarded
+		okFwd := false
+		if ex0, ex1 := inv[0].Call.Args[1], inv[0].Call.Args[2]; true {
+			e0, ok0 := ex0.(*ssa.Extract)
+			e1, ok1 := ex1.(*ssa.Extract)
+			okFwd = ok0 && ok1 && e0.Tuple == ssa.Value(abs[0]) && e1.Tuple == ssa.Value(abs[0]) && e0.Index == 0 && e1.Index == 1
 		}
-	}
-	okSelf := false
-	var why string
-	if self != nil {
-		d, _ := self.Call.Args[0].(*ssa.IndexAddr)
-		a, _ := self.Call.Args[1].(*ssa.IndexAddr)
-		tmp, _ := self.Call.Args[2].(*ssa.Alloc)
-		// the same accumulation in a zero-initialised local that is stored into quotient[index] on every way out
-		if acc, isAcc := self.Call.Args[0].(*ssa.Alloc); isAcc && self.Call.Args[1] == ssa.Value(acc) && len(storesInto(acc)) == 0 {
-			for _, b := range fn.Blocks {
-				for _, in := range b.Instrs {
-					st, isSt := in.(*ssa.Store)
-					if !isSt {
-						continue
-					}
-					ia, isIA := st.Addr.(*ssa.IndexAddr)
-					ld, isLd := st.Val.(*ssa.UnOp)
-					if !isIA || !isLd || ld.Op != token.MUL || ld.X != ssa.Value(acc) || !isIdx(ia.Index) {
-						continue
-					}
-					cut := core.NewCuts()
-					cut.AddInstr(st)
-					all := true
-					for _, rb := range fn.Blocks {
-						if len(rb.Instrs) > 0 {
-							if r, isRet := rb.Instrs[len(rb.Instrs)-1].(*ssa.Return); isRet && !core.MustPass(fn, cut, r) {
-								all = false
-							}
+		// quotient[i] *= denInv
+		okScale := false
+		for _, m := range muls {
+			if d, isD := m.Call.Args[0].(*ssa.IndexAddr); isD && d.Index == loopVar {
+				if cell, isCell := m.Call.Args[2].(*ssa.Alloc); isCell {
+					for _, st := range storesInto(cell) {
+						if st.Val == ssa.Value(inv[0]) {
+							okScale = num != nil && core.Precedes(fn, num, m)
 						}
 					}
-					if all && !core.CanReach(fn, st, self) {
-						d, a = ia, ia
-					}
 				}
 			}
 		}
-		if d != nil && a != nil && tmp != nil && isIdx(d.Index) && isIdx(a.Index) && core.PathOf(d.X) == core.PathOf(a.X) {
-			// tmp = weightRatio * quotient[i]
-			for _, m := range muls {
-				if m.Call.Args[0] != ssa.Value(tmp) {
-					continue
-				}
-				var wr *ssa.Alloc
-				var qi *ssa.IndexAddr
-				for _, arg := range m.Call.Args[1:] {
-					if al, isAl := arg.(*ssa.Alloc); isAl {
-						wr = al
-					}
-					if ia, isIA := arg.(*ssa.IndexAddr); isIA {
-						qi = ia
-					}
-				}
-				if wr == nil || qi == nil || qi.Index != loopVar || core.PathOf(qi.X) != core.PathOf(d.X) {
-					why = "the subtracted product is not weightRatio * quotient[i]"
-					continue
-				}
-				for _, st := range storesInto(wr) {
-					if st.Val == ssa.Value(ratio[0]) && isIdx(ratio[0].Call.Args[1]) && ratio[0].Call.Args[2] == loopVar {
-						okSelf = true
-					}
-				}
-				if !okSelf {
-					why = "the weight ratio is not getRatioOfWeights(index, i)"
-				}
-			}
-		} else {
-			why = "the self term is not quotient[index] -= …"
-		}
-		// only inside i != index
-		guard := core.NewCuts()
-		for _, cd := range core.Conds(fn) {
-			if cd.X == loopVar && isIdx(cd.Y) || cd.Y == loopVar && isIdx(cd.X) {
-				if e := cd.EdgeWhere(token.NEQ); e >= 0 {
-					guard.AddEdge(cd.Block, e)
-				}
+		c.Check(okDen && okNum && okFwd && okScale, "Q1", "DivideOnDomain:orientation"+sfx, fn.Pos(),
+			fmt.Sprintf("orientation of numerator and denominator disagree or are not forwarded (den=i-index: %v, num=f[i]-f[index]: %v, |den|,sign forwarded: %v, scaled by that inverse: %v)", okDen, okNum, okFwd, okScale),
+			"den = i - index", "num = f[i] - f[index]", "q[i] = num * getInvertedElement(|den|, den<0)")
+		// Q2
+		var self *ssa.Call
+		for _, s := range subs {
+			if s != num {
+				self = s
 			}
 		}
-		if guard.Empty() || !core.MustPass(fn, guard, self) {
-			okSelf = false
-			why = "quotient[index] is updated outside the i != index branch"
+		okSelf := false
+		var why string
+		if self != nil {
+			d, _ := self.Call.Args[0].(*ssa.IndexAddr)
+			a, _ := self.Call.Args[1].(*ssa.IndexAddr)
+			tmp, _ := self.Call.Args[2].(*ssa.Alloc)
+			// the same accumulation in a zero-initialised local that is stored into quotient[index] on every way out
+			if acc, isAcc := self.Call.Args[0].(*ssa.Alloc); isAcc && self.Call.Args[1] == ssa.Value(acc) && len(storesInto(acc)) == 0 {
+				for _, b := range fn.Blocks {
+					for _, in := range b.Instrs {
+						st, isSt := in.(*ssa.Store)
+						if !isSt {
+							continue
+						}
+						ia, isIA := st.Addr.(*ssa.IndexAddr)
+						ld, isLd := st.Val.(*ssa.UnOp)
+						if !isIA || !isLd || ld.Op != token.MUL || ld.X != ssa.Value(acc) || !isIdx(ia.Index) {
+							continue
+						}
+						cut := core.NewCuts()
+						cut.AddInstr(st)
+						all := true
+						for _, rb := range fn.Blocks {
+							if len(rb.Instrs) > 0 {
+								if r, isRet := rb.Instrs[len(rb.Instrs)-1].(*ssa.Return); isRet && !core.MustPass(fn, cut, r) {
+									all = false
+								}
+							}
+						}
+						if all && !core.CanReach(fn, st, self) {
+							d, a = ia, ia
+						}
+					}
+				}
+			}
+			if d != nil && a != nil && tmp != nil && isIdx(d.Index) && isIdx(a.Index) && core.PathOf(d.X) == core.PathOf(a.X) {
+				// tmp = weightRatio * quotient[i]
+				for _, m := range muls {
+					if m.Call.Args[0] != ssa.Value(tmp) {
+						continue
+					}
+					var wr *ssa.Alloc
+					var qi *ssa.IndexAddr
+					for _, arg := range m.Call.Args[1:] {
+						if al, isAl := arg.(*ssa.Alloc); isAl {
+							wr = al
+						}
+						if ia, isIA := arg.(*ssa.IndexAddr); isIA {
+							qi = ia
+						}
+					}
+					if wr == nil || qi == nil || qi.Index != loopVar || core.PathOf(qi.X) != core.PathOf(d.X) {
+						why = "the subtracted product is not weightRatio * quotient[i]"
+						continue
+					}
+					for _, st := range storesInto(wr) {
+						if st.Val == ssa.Value(ratio[0]) && isIdx(ratio[0].Call.Args[1]) && ratio[0].Call.Args[2] == loopVar {
+							okSelf = true
+						}
+					}
+					if !okSelf {
+						why = "the weight ratio is not getRatioOfWeights(index, i)"
+					}
+				}
+			} else {
+				why = "the self term is not quotient[index] -= …"
+			}
+			// only inside i != index
+			guard := core.NewCuts()
+			for _, cd := range core.Conds(fn) {
+				if cd.X == loopVar && isIdx(cd.Y) || cd.Y == loopVar && isIdx(cd.X) {
+					if e := cd.EdgeWhere(token.NEQ); e >= 0 {
+						guard.AddEdge(cd.Block, e)
+					}
+				}
+			}
+			excluded := ranges[len(ranges)-1] == "below" || ranges[len(ranges)-1] == "above"
+			if !excluded && (guard.Empty() || !core.MustPass(fn, guard, self)) {
+				okSelf = false
+				why = "quotient[index] is updated outside the i != index branch"
+			}
 		}
+		c.Check(okSelf, "Q2", "DivideOnDomain:self-term"+sfx, fn.Pos(), why, "q[index] -= getRatioOfWeights(index, i) * q[i], only for i != index")
 	}
-	c.Check(okSelf, "Q2", "DivideOnDomain:self-term", fn.Pos(), why, "q[index] -= getRatioOfWeights(index, i) * q[i], only for i != index")
+	sort.Strings(ranges)
+	cover := strings.Join(ranges, "+")
+	c.Check(cover == "all" || cover == "above+below", "Q2", "DivideOnDomain:every-other-position", fn.Pos(), "the quotient is not computed for every position i != index of the domain (loops cover: "+cover+")", "i ranges over "+cover)
 }
 
 // ---------------------------------------------------------------------------
